@@ -36,6 +36,9 @@ CLAIMED = {
     'C18': ('other', 'bounded: trivia filters (clear_comments, clear_whitespaces, filter_comments) keep the code token and select exactly the '
                      'right trivia; line-comment detection equals the long-bracket rule; the writer always breaks the line after a line comment '
                      'before code. append_text_comment::text, the regex filter and the remove_spaces visitor are not covered'),
+    'C20': ('other', 'boolean filter logic only, bounded: RuleMetadata::should_apply and Configuration::should_apply_rule equal '
+                     '(no apply pattern or one matches) and no skip pattern matches, over an ABSTRACT match relation (FilterPattern::matches '
+                     'stubbed; glob semantics of the wax crate and the "same pipeline with that rule deleted" equivalence are not covered)'),
     'C08': ('proof', 'value-level kernel of the static evaluator (truthiness, and/or folding, raw equality over all doubles, string '
                      'order, length, maybe_metatable, multi-value test) against Lua 5.1 value semantics; a definite answer must be '
                      'the real one'),
